@@ -105,6 +105,9 @@ def r14(run):
                 sh = shape(x.value)
                 okf = const(receiver(x.value)) == ' Port={},{}' and 'split' in src(x.value) and lp.target.id in src(x.value)
                 run.ob('R14.3', u, x, 'Port=<virtual>,<target> from the two halves of the mapping', okf, slot='port-format', message='port item is %s' % src(x.value))
+    # (a prefix that is looked up instead of written out - a table by version - is outside what the key oracle evaluates: undecided)
+    nonliteral_prefix = any(isinstance(x, ast.Assign) and assign_to(x, 'onion._private_key') is not None and isinstance(assign_to(x, 'onion._private_key'), ast.BinOp)
+                            and const(assign_to(x, 'onion._private_key').left) is NOCONST for x in walk_unit(u))
     # --- the option product
     npaths = 0
     seen = set()
@@ -149,7 +152,7 @@ def r14(run):
                     if isinstance(a, ast.Assign):
                         v = assign_to(a, 'onion._private_key')
                         if v is not None:
-                            stores.append('none' if is_none(v) else ('reply' if (RES + "[") in src(v) else ('prefix:' + str(const(v.left)) if isinstance(v, ast.BinOp) else 'other:' + src(v))))
+                            stores.append('none' if is_none(v) else ('reply' if (RES + "[") in src(v) else (('prefix:' + str(const(v.left)) if const(v.left) is not NOCONST else 'prefix?:' + src(v.left)) if isinstance(v, ast.BinOp) else 'other:' + src(v))))
                         v = assign_to(a, 'onion._hostname')
                         if v is not None:
                             hostname.append(src(v))
@@ -196,7 +199,9 @@ def r14(run):
             if k0 == 'bare':
                 want_p = {2: 'prefix:RSA1024:', 3: 'prefix:ED25519-V3:'}[version]
                 if sent:
-                    run.ob('R14.2', u, last, 'a bare key blob only gets its type prefix', pre == [want_p], slot='prefix:bare:%d' % version, message='bare key rewritten as %s (version %d)' % (pre, version))
+                    unknown_prefix = any(s_.startswith('prefix?:') for s_ in pre) or nonliteral_prefix
+                    run.ob('R14.2', u, last, 'a bare key blob only gets its type prefix', None if unknown_prefix else pre == [want_p], slot='prefix:bare:%d' % version,
+                           message='bare key rewritten as %s (version %d)%s' % (pre, version, ': the prefix is not a literal here (looked up in a table?) - not decided' if unknown_prefix else ''))
             elif sent:
                 run.ob('R14.2', u, last, 'a key is never rewritten otherwise', not pre, slot='prefix:%s' % k0, message='key of class %s rewritten: %s' % (k0, pre))
     run.count('R14 option-product paths', npaths)
